@@ -328,6 +328,9 @@ class Check:
             argv = self.argv_for(st, spec, bd, sd, hi == 0)
             r = self.history_meson(root, argv, os.path.join(root, f'hist-{hi}.log'))
             if not r['ok'] or r['value'] != 0:
+                if not os.environ.get('VERIF_C09_TOLERATE_SKIPS'):
+                    # every history is a sequence of valid commands: looking away here would hide a generator bug or a broken command
+                    return R.harness_error(f'history step {st} of a generated scenario failed: ' + (r['out'] or str(r.get('exc')))[-1500:])
                 add(probes, 'history-step-failed')
                 return R.ok(nontrivial=False, probes=probes, faults=faults, summary={'skipped': 'history step failed', 'step': st,
                                                                                    'out': (r['out'] or str(r.get('exc')))[-400:]})
@@ -354,6 +357,8 @@ class Check:
         tr = os.path.join(root, 'trace.txt')
         cp = self.exec_cmd(root, argv, None, False, tr)
         if cp.returncode != 0:
+            if not os.environ.get('VERIF_C09_TOLERATE_SKIPS'):
+                return R.harness_error(f'the command under test {argv[:3]} fails when it is not interrupted: ' + (cp.stdout + cp.stderr)[-1500:])
             add(probes, 'command-fails-uninterrupted')
             return R.ok(nontrivial=False, probes=probes, faults=faults, summary={'skipped': 'command under test fails when not interrupted', 'argv': argv,
                                                                                'out': (cp.stdout + cp.stderr)[-500:]})
